@@ -23,6 +23,12 @@ open CaddyModel.C02
 #print axioms reload_is_a_run
 #print axioms reload_never_unbinds_retained
 #print axioms reload_sequence_is_a_run
+#print axioms admin_listener_never_unbound
+#print axioms admin_retained_never_unbound
+#print axioms admin_served_by_current_or_replaced
+#print axioms admin_after_drain
+#print axioms admin_not_rolled_back
+#print axioms admin_reorder_breaks_it
 #print axioms reorder_breaks_it
 #print axioms dropped_address_closed_old_code_fails
 #print axioms served_by_old_or_new_old_code_fails
